@@ -75,6 +75,9 @@ pub enum IoPart {
 pub struct BuilderSc {
     pub calls: Vec<BCall>,
     pub io: IoPart,
+    /// run with a tracing subscriber that enables every span and event
+    #[serde(default)]
+    pub trace: bool,
 }
 
 pub const FLAG_BITS: [u16; 10] = [
@@ -393,120 +396,8 @@ fn expected_frame(mode: SizeMode, m: &ModelIsi) -> Result<Vec<u8>, String> {
     Ok(f)
 }
 
-impl Prop for C18 {
-    type Sc = BuilderSc;
-
-    fn id(&self) -> &'static str {
-        "C18"
-    }
-    fn level(&self) -> &'static str {
-        "exploration"
-    }
-    fn runs(&self, tier: Tier) -> u64 {
-        match tier {
-            Tier::Quick => 20_000,
-            Tier::Thorough => 1_000_000,
-        }
-    }
-    /// sweep: every single flag setter on/off from every one of the 2^10 starting flag states
-    fn sweep_len(&self, _tier: Tier) -> u64 {
-        1024 * 10 * 2
-    }
-    fn sweep_case(&self, _tier: Tier, idx: u64) -> BuilderSc {
-        let start = (idx % 1024) as u16;
-        let flag = ((idx / 1024) % 10) as u8;
-        let on = idx / 10240 == 1;
-        // start state through the wholesale setter: bit i of `start` -> FLAG_BITS[i]
-        let mut bits = 0u16;
-        for i in 0..10 {
-            if start >> i & 1 == 1 {
-                bits |= FLAG_BITS[i];
-            }
-        }
-        BuilderSc {
-            calls: vec![BCall::Flags(bits), BCall::Flag(flag, on)],
-            io: IoPart::None,
-        }
-    }
-    fn sweep_note(&self, _tier: Tier) -> Value {
-        json!({"what": "each of the 10 single-flag setters, on and off, applied to each of the 2^10 flag states", "cases": 20480, "exhaustive_over_this_subspace": true})
-    }
-
-    fn generate(&self, rng: &mut Rng, tier: Tier, _stats: &mut GenStats) -> BuilderSc {
-        let n = match rng.below(10) {
-            0 => 0,
-            1..=6 => rng.usize(1, 8),
-            _ => rng.usize(8, 40),
-        };
-        let mut calls: Vec<BCall> = (0..n).map(|_| gen_call(rng)).collect();
-        // the corner the crash sits in: UDP without local address, with nothing or anything around
-        if rng.chance(1, 12) {
-            let at = rng.usize(0, calls.len());
-            calls.insert(at, BCall::Udp(None));
-        }
-        let connect_den = match tier {
-            Tier::Quick => 100,
-            Tier::Thorough => 200,
-        };
-        let io = if rng.chance(1, connect_den) {
-            // relay itself would need isrelay.lfs.net; but a builder that was a relay builder for a
-            // while and ends up on a direct transport must behave like any other
-            if rng.chance(1, 4) {
-                let at = rng.usize(0, calls.len());
-                calls.insert(at, BCall::Relay);
-            }
-            if model_of(&calls).proto == 2 {
-                calls.push(if rng.chance(1, 2) { BCall::Tcp } else { BCall::Udp(if rng.chance(1, 2) { None } else { Some(0) }) });
-            }
-            // a concrete local port must be free: only None / port 0 are used with real sockets
-            for c in calls.iter_mut() {
-                if let BCall::Udp(Some(p)) = c {
-                    if *p != 0 {
-                        *c = BCall::Udp(Some(0));
-                    }
-                }
-            }
-            // relay options set on a builder that ends up on a direct transport must not leak
-            if rng.chance(1, 3) {
-                let at = rng.usize(0, calls.len());
-                calls.insert(at, BCall::RelaySelectHost(Some(rand_name(rng, 12))));
-            }
-            // an interval the 16-bit wire field cannot carry makes the handshake fail: not here
-            for c in calls.iter_mut() {
-                if let BCall::IntervalMs(Some(ms)) = c {
-                    if *ms > 65_535 {
-                        *c = BCall::IntervalMs(Some(65_535));
-                    }
-                }
-            }
-            IoPart::Connect {
-                imp: if rng.chance(1, 2) { Imp::Blocking } else { Imp::Tokio },
-            }
-        } else if rng.chance(1, 3) {
-            let wc = if rng.chance(1, 4) { WriteCfg::healthy() } else { WriteCfg::swarm(rng) };
-            let k = rng.usize(0, 60);
-            let mut writes = gen::gen_writes(rng, k, &wc);
-            if rng.chance(1, 5) {
-                // a transient transport error somewhere inside the handshake write
-                let at = rng.usize(0, writes.len().min(6));
-                let kind = *rng.pick(&[crate::scenario::ErrKind::WouldBlock, crate::scenario::ErrKind::TimedOut, crate::scenario::ErrKind::Interrupted]);
-                writes.insert(at, WriteEv::Err(kind));
-            }
-            IoPart::SimHandshake {
-                imp: if rng.chance(1, 2) { Imp::Blocking } else { Imp::Tokio },
-                writes,
-                after_failed_write: rng.chance(1, 6),
-            }
-        } else {
-            if rng.chance(1, 20) {
-                calls.push(BCall::Relay);
-            }
-            IoPart::None
-        };
-        BuilderSc { calls, io }
-    }
-
-    fn execute(&self, sc: &BuilderSc) -> RunReport {
+impl C18 {
+    fn execute_inner(&self, sc: &BuilderSc) -> RunReport {
         let mut rep = RunReport::default();
         let mut h = Fnv::default();
         let m = model_of(&sc.calls);
@@ -653,6 +544,126 @@ impl Prop for C18 {
         rep.trace_hash = h.finish();
         rep
     }
+}
+
+impl Prop for C18 {
+    type Sc = BuilderSc;
+
+    fn id(&self) -> &'static str {
+        "C18"
+    }
+    fn level(&self) -> &'static str {
+        "exploration"
+    }
+    fn runs(&self, tier: Tier) -> u64 {
+        match tier {
+            Tier::Quick => 20_000,
+            Tier::Thorough => 1_000_000,
+        }
+    }
+    /// sweep: every single flag setter on/off from every one of the 2^10 starting flag states
+    fn sweep_len(&self, _tier: Tier) -> u64 {
+        1024 * 10 * 2
+    }
+    fn sweep_case(&self, _tier: Tier, idx: u64) -> BuilderSc {
+        let start = (idx % 1024) as u16;
+        let flag = ((idx / 1024) % 10) as u8;
+        let on = idx / 10240 == 1;
+        // start state through the wholesale setter: bit i of `start` -> FLAG_BITS[i]
+        let mut bits = 0u16;
+        for i in 0..10 {
+            if start >> i & 1 == 1 {
+                bits |= FLAG_BITS[i];
+            }
+        }
+        BuilderSc {
+            calls: vec![BCall::Flags(bits), BCall::Flag(flag, on)],
+            io: IoPart::None,
+            trace: false,
+        }
+    }
+    fn sweep_note(&self, _tier: Tier) -> Value {
+        json!({"what": "each of the 10 single-flag setters, on and off, applied to each of the 2^10 flag states", "cases": 20480, "exhaustive_over_this_subspace": true})
+    }
+
+    fn generate(&self, rng: &mut Rng, tier: Tier, _stats: &mut GenStats) -> BuilderSc {
+        let n = match rng.below(10) {
+            0 => 0,
+            1..=6 => rng.usize(1, 8),
+            _ => rng.usize(8, 40),
+        };
+        let mut calls: Vec<BCall> = (0..n).map(|_| gen_call(rng)).collect();
+        // the corner the crash sits in: UDP without local address, with nothing or anything around
+        if rng.chance(1, 12) {
+            let at = rng.usize(0, calls.len());
+            calls.insert(at, BCall::Udp(None));
+        }
+        let connect_den = match tier {
+            Tier::Quick => 100,
+            Tier::Thorough => 200,
+        };
+        let io = if rng.chance(1, connect_den) {
+            // relay itself would need isrelay.lfs.net; but a builder that was a relay builder for a
+            // while and ends up on a direct transport must behave like any other
+            if rng.chance(1, 4) {
+                let at = rng.usize(0, calls.len());
+                calls.insert(at, BCall::Relay);
+            }
+            if model_of(&calls).proto == 2 {
+                calls.push(if rng.chance(1, 2) { BCall::Tcp } else { BCall::Udp(if rng.chance(1, 2) { None } else { Some(0) }) });
+            }
+            // a concrete local port must be free: only None / port 0 are used with real sockets
+            for c in calls.iter_mut() {
+                if let BCall::Udp(Some(p)) = c {
+                    if *p != 0 {
+                        *c = BCall::Udp(Some(0));
+                    }
+                }
+            }
+            // relay options set on a builder that ends up on a direct transport must not leak
+            if rng.chance(1, 3) {
+                let at = rng.usize(0, calls.len());
+                calls.insert(at, BCall::RelaySelectHost(Some(rand_name(rng, 12))));
+            }
+            // an interval the 16-bit wire field cannot carry makes the handshake fail: not here
+            for c in calls.iter_mut() {
+                if let BCall::IntervalMs(Some(ms)) = c {
+                    if *ms > 65_535 {
+                        *c = BCall::IntervalMs(Some(65_535));
+                    }
+                }
+            }
+            IoPart::Connect {
+                imp: if rng.chance(1, 2) { Imp::Blocking } else { Imp::Tokio },
+            }
+        } else if rng.chance(1, 3) {
+            let wc = if rng.chance(1, 4) { WriteCfg::healthy() } else { WriteCfg::swarm(rng) };
+            let k = rng.usize(0, 60);
+            let mut writes = gen::gen_writes(rng, k, &wc);
+            if rng.chance(1, 5) {
+                // a transient transport error somewhere inside the handshake write
+                let at = rng.usize(0, writes.len().min(6));
+                let kind = *rng.pick(&[crate::scenario::ErrKind::WouldBlock, crate::scenario::ErrKind::TimedOut, crate::scenario::ErrKind::Interrupted]);
+                writes.insert(at, WriteEv::Err(kind));
+            }
+            IoPart::SimHandshake {
+                imp: if rng.chance(1, 2) { Imp::Blocking } else { Imp::Tokio },
+                writes,
+                after_failed_write: rng.chance(1, 6),
+            }
+        } else {
+            if rng.chance(1, 20) {
+                calls.push(BCall::Relay);
+            }
+            IoPart::None
+        };
+        let trace = rng.chance(1, 8);
+        BuilderSc { calls, io, trace }
+    }
+
+    fn execute(&self, sc: &BuilderSc) -> RunReport {
+        crate::tracer::with_tracing(sc.trace, || self.execute_inner(sc))
+    }
 
     fn trace(&self, sc: &BuilderSc) -> Value {
         let m = model_of(&sc.calls);
@@ -682,6 +693,7 @@ impl Prop for C18 {
                 c.push(BuilderSc {
                     calls: sc.calls.clone(),
                     io: IoPart::SimHandshake { imp: *imp, writes: vec![], after_failed_write: *after_failed_write },
+                    trace: sc.trace,
                 });
                 for i in 0..writes.len().min(60) {
                     let mut w = writes.clone();
@@ -689,6 +701,7 @@ impl Prop for C18 {
                     c.push(BuilderSc {
                         calls: sc.calls.clone(),
                         io: IoPart::SimHandshake { imp: *imp, writes: w, after_failed_write: *after_failed_write },
+                        trace: sc.trace,
                     });
                 }
             }
@@ -709,6 +722,18 @@ impl Prop for C18 {
             }
         }
         c
+    }
+
+    fn repro_variants(&self, sc: &BuilderSc) -> Vec<BuilderSc> {
+        // tracing keeps a process-wide callsite cache: a case found with `trace: false` while
+        // another worker had a subscriber reproduces on its own only with `trace: true`
+        if sc.trace {
+            vec![]
+        } else {
+            let mut v = sc.clone();
+            v.trace = true;
+            vec![v]
+        }
     }
 
     fn rule(&self) -> String {
